@@ -15,7 +15,7 @@ macro "unfold_steps" hs:ident : tactic => `(tactic|
     stepQuery, stepCbBegin, stepCbEnd, stepCbAbandon, stepCbPanic, stepVnew, stepWork, stepCtxSignal,
     stepCtxTimer, stepCtxWeak, stepFire, stepTimerArm, stepTimerEnd, stepTickBegin, stepTime, stepCancel,
     stepTaskPanic, stepTaskDone, stepStreamReady, stepStreamEnd, stepDeq, stepChanEnd, stepStreamEndTau,
-    retEffect, beginWait, notifyEarly, toStopping] at $hs:ident)
+    retEffect, beginWait, notifyEarly, toStopping, refreshTimers] at $hs:ident)
 
 set_option maxHeartbeats 1000000 in
 theorem step_done (w : Wiring) (hw : w.notifyAfterStopped = true) {s s' : AState} {l : Label}
